@@ -4,6 +4,7 @@ import (
 	"bytes"
 	"fmt"
 	"math/rand"
+	"os"
 	"sort"
 	"strings"
 	"time"
@@ -208,7 +209,7 @@ func (fr *fwRun) fail(prop, key, what string, extra map[string]any) {
 		fr.others = append(fr.others, fmt.Sprintf("step %d: %s", len(fr.hist), key))
 		return
 	}
-	d := map[string]any{"other_properties_concerned": fr.others, "options": fr.opts, "strategy_at_root": fr.m.strategy, "history": fr.hist, "faces": fr.faceDesc()}
+	d := map[string]any{"other_properties_concerned": fr.others, "model_pending": fr.pendingDesc(), "options": fr.opts, "strategy_at_root": fr.m.strategy, "history": fr.hist, "faces": fr.faceDesc()}
 	for k, v := range extra {
 		d[k] = v
 	}
@@ -547,6 +548,10 @@ func (fr *fwRun) doStep(st *fwStep) {
 		fr.stepInterest(st)
 	case "data":
 		fr.stepData(st)
+	}
+	if os.Getenv("VERIF_DEBUG") != "" {
+		info := table.VerifPitCsStats(fwfw.VerifPitCs(fr.sim.T))
+		fmt.Fprintf(os.Stderr, "DEBUG step %d %s %s face=%d sends=%v\n   impl PIT=%v notqueued=%d\n   model=%v\n", len(fr.hist), st.Kind, st.Name, st.Face, st.Sends, info.PitEntryNames, info.PitNotQueued, fr.pendingDesc())
 	}
 	if fr.stop {
 		return
@@ -1141,6 +1146,15 @@ func (fr *fwRun) stepData(st *fwStep) {
 	}
 	fr.c.Count("data_forwarded", int64(len(sends)))
 	// ---- consume
+	if branch == "token" && len(M) == 1 && M[0].tokenStale && len(sends) == 0 {
+		// the token may denote an entry instance the forwarder has already dropped: whether the
+		// pending Interests recorded since were consumed is unknown
+		for _, ir := range M[0].in {
+			ir.optional = true
+		}
+		M[0].maybe = true
+		return
+	}
 	for _, e := range M {
 		if refNameCompare(e.name, st.name) == 0 {
 			for _, o := range e.out {
